@@ -474,6 +474,38 @@ func checkC11(p *Program, r *Report) {
 		roots = append(roots, ctor)
 	}
 	flagPackRule(p, r, "C11.pack", roots, 3, 5)
+	// C11.extract: the extractor has one way of producing a root: the traversal
+	{
+		var tc *ssa.Call
+		for _, b := range ext.Blocks {
+			for _, in := range b.Instrs {
+				if c, ok := in.(*ssa.Call); ok {
+					if cal := c.Call.StaticCallee(); cal != nil && p.InRepo(cal) && cal.Pkg == ext.Pkg {
+						for _, bb := range cal.Blocks {
+							for _, ii := range bb.Instrs {
+								if cc, ok := ii.(*ssa.Call); ok && cc.Call.StaticCallee() == cal {
+									tc = c
+								}
+							}
+						}
+					}
+				}
+			}
+		}
+		if tc == nil {
+			r.Unresolved("C11.extract", "call of the recursive traversal in ExtractMatches")
+		} else {
+			for i, ret := range returnsOf(ext) {
+				if len(ret.Results) == 0 || isNilConst(ret.Results[0]) {
+					continue
+				}
+				dom := tc.Block() == ret.Block() || tc.Block().Dominates(ret.Block())
+				r.Add("C11.extract", FnName(ext), fmt.Sprintf("root-returning exit #%d comes after the flag-driven traversal", i+1), p.InstrPos(ret), dom,
+					map[bool]string{true: "the traversal call dominates the return", false: "a root is returned on a path that never ran the traversal: the flag bits were not consulted"}[dom])
+			}
+		}
+		r.Floor("C11.extract", 1)
+	}
 	// the set both builders prove is the scanner's: its spender index must not lose spenders
 	spenderIndexRule(p, r, "C11.select")
 	r.Floor("C11.select", 1)
